@@ -81,7 +81,62 @@ NATIVE = {
 from contracts import extra as _extra
 from contracts import extra as _extra2
 from contracts import C01 as _C01
-BOUNDED = [_extra.bounded_from_text, _extra2.bounded_path_composition, _C01.bounded_registered_access]
+def bounded_wildcard_delete(tier, seed):
+    """delete through wildcards acts at EVERY match: '*.tmp' removes 'tmp' from every child container (mapping values, sequence items,
+    attribute values -- underscore-named attributes included), '**.tmp' from every descendant container (equal-but-distinct containers are
+    distinct matches); everything else is unchanged and the same object is returned.  Oracle: copy.deepcopy + a hand-written walk.
+    Bound: the structure catalogue below x 2 paths x {delete(), Delete spec}."""
+    import copy
+    import glom as G
+    class Obj:
+        def __init__(self, **kw):
+            self.__dict__.update(kw)
+        def __eq__(self, other):
+            return type(other) is type(self) and vars(self) == vars(other)
+    def structures():
+        yield 'dict-of-dicts', {'l': {'tmp': 1, 'keep': 2}, 'r': {'tmp': 3, 'keep': 4}}
+        yield 'list-of-dicts', [{'tmp': 1, 'keep': 2}, {'tmp': 3}, {'tmp': 5, 'x': [1]}]
+        yield 'object-underscore', Obj(left={'tmp': 1, 'keep': 2}, _spare={'tmp': 5, 'keep': 6}, __m={'tmp': 7})
+        yield 'equal-distinct', {'east': {'cfg': {'tmp': 1, 'keep': 2}}, 'west': {'cfg': {'tmp': 1, 'keep': 2}}}
+        yield 'nested-objects', {'a': Obj(cfg={'tmp': 1}, _cfg={'tmp': 2}), 'b': [{'tmp': 3}, {'tmp': 3}]}
+    def kids(v):
+        if isinstance(v, dict):
+            return list(v.values())
+        if isinstance(v, (list, tuple)):
+            return list(v)
+        if isinstance(v, Obj):
+            return list(vars(v).values())
+        return []
+    def strip(v, deep, top=True):
+        """the expected effect: 'tmp' removed from the children (deep: from every proper descendant) that are dicts holding it"""
+        for ch in kids(v):
+            if isinstance(ch, dict) and 'tmp' in ch:
+                del ch['tmp']
+            if deep:
+                strip(ch, True, False)
+    cases, failures = 0, []
+    for name, _ in structures():
+        for path, deep in (('*.tmp', False), ('**.tmp', True)):
+            for how in ('delete', 'Delete'):
+                s = dict(structures())[name]
+                exp = copy.deepcopy(s)
+                strip(exp, deep)
+                if deep and isinstance(exp, dict):
+                    exp.pop('tmp', None)
+                cases += 1
+                try:
+                    got = G.delete(s, path, ignore_missing=True) if how == 'delete' else G.glom(s, G.Delete(path, ignore_missing=True))
+                except Exception as e:
+                    failures.append({'key': 'wildcard-delete', 'input': '%s / %s / %s' % (name, path, how), 'observed': repr(e)[:150], 'expected': repr(exp)[:150], 'replay_code': None})
+                    continue
+                if got is not s or s != exp:
+                    failures.append({'key': 'wildcard-delete', 'input': '%s / %s / %s' % (name, path, how), 'observed': repr(vars(s) if isinstance(s, Obj) else s)[:150],
+                                     'expected': repr(vars(exp) if isinstance(exp, Obj) else exp)[:150], 'replay_code': None})
+    return {'name': 'delete through wildcards vs deepcopy + hand-written walk', 'label': 'bounded', 'cases': cases, 'bound': '5 structures x 2 paths x 2 entry points',
+            'failures': failures}
+
+
+BOUNDED = [_extra.bounded_from_text, _extra2.bounded_path_composition, _C01.bounded_registered_access, bounded_wildcard_delete]
 ASSUMPTIONS = [
     'G-contract for fetching the parent; opaque user primitives del obj[k] / delattr / registered delete handler (each may raise anything)',
     'Delete.glomit is proved for wildcard-free paths; the wildcard broadcast is the separate contract on _apply_for_each',
